@@ -12,7 +12,7 @@
 #define ext_vh_read vh_read_impl
 #define ext_vh_write vh_write_impl
 uint64_t vh_read_impl(uint8_t* dst, uint64_t maxlen);
-void vh_write_impl(uint8_t* src, uint64_t len);
+uint32_t vh_write_impl(uint8_t* src, uint64_t len);
 #include "w_buf_gen.c"
 #else
 #include "w_buf_gen_protos.h"
@@ -21,11 +21,12 @@ void vh_write_impl(uint8_t* src, uint64_t len);
 #endif
 static int vh_k;
 static uint64_t nx(void) { return IN(vh_k++); }
-#define BEGIN() do { vh_k = 0; spos = 0; wpos = 0; nreads = 0; } while (0)
+#define BEGIN() do { vh_k = 0; spos = 0; wpos = 0; nreads = 0; nwrites = 0; fail_at = -1; } while (0)
 #define SMAX (K * (BN + 1) + 2 * BN + 4)
 static uint8_t stream[SMAX]; static uint64_t spos;   /* source: arbitrary byte stream, read position */
 static uint8_t sunk[SMAX]; static uint64_t wpos;      /* sink: record of everything written */
 static int nreads;
+static int nwrites, fail_at;                         /* the sink refuses its fail_at-th write (documented: writeData() throws) */
 static uint64_t chunk[SMAX];                         /* chunk sizes the source delivers (symbolic) */
 /* environment source: contract = returns 1..maxlen bytes */
 uint64_t vh_read_impl(uint8_t* dst, uint64_t maxlen)
@@ -36,11 +37,12 @@ uint64_t vh_read_impl(uint8_t* dst, uint64_t maxlen)
   for (uint64_t i = 0; i < SMAX; i++) if (i < n) dst[i] = stream[spos + i];
   spos += n; return n;
 }
-void vh_write_impl(uint8_t* src, uint64_t len)
+uint32_t vh_write_impl(uint8_t* src, uint64_t len)
 {
+  if (nwrites++ == fail_at) return 1;
   ASSUME(wpos + len <= SMAX);
   for (uint64_t i = 0; i < SMAX; i++) if (i < len) sunk[wpos + i] = src[i];
-  wpos += len;
+  wpos += len; return 0;
 }
 static void mk_stream(void)
 {
@@ -111,7 +113,16 @@ HARNESS(h_wb_step) { BEGIN();
   uint8_t* data = vh_alloc(len);
   { uint64_t w = nx(); for (uint64_t i = 0; i < BN + 2; i++) if (i < len) data[i] = (uint8_t)(w >> (8 * (i % 8))); }
   uint64_t p2 = pos;
+  { uint64_t fa = nx(); ASSUME(fa <= 2); fail_at = (int) fa - 1; }       /* -1: the sink works, 0 / 1: it refuses its first / second write */
   int rc = vw_wb_step(content, &p2, op, data, len); OUT(rc); OUT(p2); OUT(wpos);
+  if (fail_at >= 0 && nwrites > fail_at) {
+    /* a write was refused: the call fails, and no byte that was buffered before is lost or duplicated - a repeated flush() delivers it */
+    CHECK(rc == 1, "C19 a refused write makes append()/flush() fail with the exception of the sink");
+    CHECK(p2 <= BN && wpos + p2 == pos, "C19 after a refused write every buffered byte is still either buffered or in the sink, once");
+    for (uint64_t i = 0; i < BN; i++) if (i < pos) { uint8_t got = i < wpos ? sunk[i] : content[i - wpos]; CHECK(got == pend[i], "C19 byte order preserved after a refused write"); }
+    WITNESS_END();
+    return;
+  }
   CHECK(rc == 0, "C19 append/flush succeed (and buffered() reports the write position)");
   CHECK(p2 <= BN, "C19 write position <= N");
   uint64_t total = pos + (op == 0 ? len : 0);
